@@ -30,6 +30,8 @@ type UnitSpec struct {
 	Paths      bool     `json:"paths,omitempty"`    // path mode (bounded lemmas): fork at branches, never merge
 	Ints       string   `json:"ints,omitempty"`     // "math": Go's int is a mathematical integer in this unit
 	Overflow   bool     `json:"overflow,omitempty"` // with ints=math: obligations that int arithmetic stays in 64 bits
+	Witness     string  `json:"witness,omitempty"`      // func units: file under /verif/witness with a scenario test
+	WitnessTest string  `json:"witness_test,omitempty"` // name of the test function in that file
 	Note       string   `json:"note,omitempty"`
 }
 
@@ -413,6 +415,14 @@ func RunProperty(id, tier string) int {
 					}
 				}
 			}
+			if suffix != "" && r.spec.Kind == "func" && r.spec.Witness != "" && (o.Kind == "post" || o.Kind == "inv-step" || o.Kind == "frame") {
+				// the failed contract has a hand-written witness scenario: run it on the real code
+				ro := ReplayWitness(r.fn.Pkg.Pkg.Path(), r.spec.Witness, r.spec.WitnessTest, work)
+				payload["replay"] = ro
+				if ro.Confirmed {
+					suffix = ""
+				}
+			}
 			f := writeReplay(o.Name, payload)
 			report(fmt.Sprintf("VIOLATION property=%s replay=%s obligation=%s (%s at %s)%s", id, f, o.Name, oneLine(o.Text), o.Pos, suffix))
 		}
@@ -483,6 +493,16 @@ func writeEvidence(id, tier string, seed int, spec *PropSpec, ev *evidenceExtra,
 		cov["solver_seconds_total"] = round3(ev.solverSecs)
 		cov["load_seconds"] = round3(loadSecs)
 		cov["functions_under_contract"] = keys(ev.notes.UnderContract)
+		var usedOnly []string
+		for _, k := range keys(ev.notes.Used) {
+			if !ev.notes.UnderContract[k] {
+				usedOnly = append(usedOnly, k)
+			}
+		}
+		cov["contracts_used_at_call_sites_but_verified_by_another_check"] = usedOnly
+		for _, k := range usedOnly {
+			assumptions = append(assumptions, "contract of "+k+" is used here and verified by the check that lists it under functions_under_contract (see DESIGN.md table of contracts)")
+		}
 		cov["functions_inlined_into_lemmas"] = keys(ev.notes.Inlined)
 		cov["uncontracted_calls_havocked"] = keys(ev.notes.Uncontracted)
 		cov["bounds"] = keys(ev.notes.Bounds)
